@@ -10,6 +10,8 @@ impl = lvlib.run_impl(ps, max_iters=20000)
 print("impl", t.s())
 L = lvlib.run_rc11(ps, "strong"); print("strong", t.s())
 U = lvlib.run_rc11(ps, "doc"); print("doc", t.s())
+from checks import findings as F
+groups = collections.defaultdict(list)
 stats = collections.Counter()
 shown = collections.Counter()
 for p in ps:
@@ -23,9 +25,15 @@ for p in ps:
     if not lo <= uo: stats["ORACLE-INCONSISTENT"] += 1
     for k, v in (("forbidden", forb), ("missing", miss)):
         if v:
+            cls = tuple(c for c, sig in F.SIGNATURES.items() if sig(p, k, v[0]))
+            groups[(k, cls)].append((p, v[0]))
             stats[k] += 1
             if shown[k] < int(os.environ.get("SHOW", "6")):
                 shown[k] += 1
                 print(k.upper(), p, "\n    ", v[0], "| impl", done, len(its), "its; |L|", len(lo), "|U|", len(uo), "|I|", len(I))
     if not forb and not miss: stats["ok"] += 1
 print(dict(stats), t.s())
+for k, v in sorted(groups.items(), key=lambda kv: -len(kv[1])):
+    print(len(v), k)
+    for p, o in v[:2]:
+        print("     ", p, "->", o)
